@@ -157,9 +157,9 @@ pub fn profile(id: &str) -> Option<Profile> {
             o.par_fault_pct = 15;
             (Kind::Engine, 5000, 300_000)
         }
-        "C04" => (Kind::Crash, 2000, 40_000),
+        "C04" => (Kind::Crash, 5000, 60_000),
         "C05" => (Kind::Crash, 1500, 40_000),
-        "C12" => (Kind::Crash, 150, 15_000),
+        "C12" => (Kind::Crash, 240, 15_000),
         "C17" => (Kind::Fault, 500, 12_000),
         "C09" => (Kind::Conformance, 3000, 150_000),
         "C14" => (Kind::Malformed, 20_000, 1_000_000),
